@@ -7,6 +7,7 @@ from ..ref import ws as refws
 from ..ref import deflate_peer
 
 LEVEL = 'exploration'
+TECHNIQUE = 'runtime monitoring against an independent zlib RFC 7692 peer over all negotiated configurations and message histories'
 BUDGET_S = {'quick': 35, 'thorough': 280}
 REQUIRED = {'all': ['c2s.rsv1_frames_inflated', 's2c.compressed_messages_compared', 'configs.c2s', 'configs.s2c',
                     'c2s.uncompressed_verbatim', 'nonegotiation.frames_checked']}
